@@ -108,8 +108,8 @@ func normalKV(kv map[string][]byte, posted []storage.Message) string {
 
 // c14Setup resolves the pair against its trace.
 func c14Setup(t *testing.T, pr c14Pair) (tr *ceremonyTrace, rec opRecord, msgs []storage.Message, err error) {
-	if pr.Trace == "reinit" {
-		tr, err = reinitTrace(t, pr.N, pr.T)
+	if pr.Trace == "reinit" || pr.Trace == "reinit014" {
+		tr, err = reinitTrace(t, pr.N, pr.T, pr.Trace == "reinit014")
 	} else {
 		tr, err = getTrace(t, pr.Trace, pr.N, pr.T)
 	}
@@ -431,6 +431,9 @@ func c14Pairs() []c14Pair {
 		out = append(out, c14Pair{Trace: tc.kind, N: tc.n, T: tc.t, Op: 2, Msgs: 2, Reset: true})
 		// finishing a reinitialisation while the poller handles another participant's signing proposal
 		out = append(out, c14Pair{Trace: "reinit", N: tc.n, T: tc.t, Op: 0, Msgs: 1})
+		// the same from a 0.1.4-style log (the polynomial arrives with the operator's request) while the poller handles the
+		// proposal and the proposer's partial signature in one go
+		out = append(out, c14Pair{Trace: "reinit014", N: tc.n, T: tc.t, Op: 0, Msgs: 2}, c14Pair{Trace: "reinit014", N: tc.n, T: tc.t, Op: 0, Msgs: 1})
 	}
 	return out
 }
@@ -470,7 +473,7 @@ func TestC14(t *testing.T) {
 		complete := true
 		job := 0
 		for pi, pr := range pairs {
-			if !thorough() && pi%3 != 0 && !pr.Reset && !pr.NewRound && pr.Trace != "reinit" {
+			if !thorough() && pi%3 != 0 && !pr.Reset && !pr.NewRound && pr.Trace != "reinit" && pr.Trace != "reinit014" {
 				complete = false
 				continue // quick: a fixed subset of pairs
 			}
